@@ -105,6 +105,8 @@ type respClient struct {
 	// timeout error although the stream goes on.
 	Transients   []int
 	TransientEOF bool
+	// TransientFor > 0: the (0, io.EOF) reads go on for that long before the stream continues
+	TransientFor time.Duration
 	// Render: the consumer uses what it receives the way a driver does: String() of every package and of every
 	// row / parameter value (direct calls: fmt would recover a panic).
 	Render bool
@@ -236,6 +238,7 @@ func runResp(cfg simrt.Config, d respDelivery, c respClient) *respResult {
 		if len(c.Transients) > 0 && cn.ID == 0 {
 			cn.Transients = append([]int{}, c.Transients...)
 			cn.TransientEOF = c.TransientEOF
+			cn.TransientFor = c.TransientFor
 		}
 	}
 	if c.Twin {
